@@ -1,5 +1,6 @@
 import Driver.Core
 import IGVerif.Model.Tab
+import IGVerif.Model.TabPrint
 namespace Drv
 open Lean IGVerif
 
@@ -13,10 +14,13 @@ def tabArgs (text id : String) (o : Tab.Opts) (extra : List (String × Json) := 
   Json.mkObj ([("text", (text : Json)), ("id", (id : Json)), ("ext", (o.ext : Json)), ("ann", (o.ann : Json)),
     ("fmt", ((if o.gs then "gs" else "csv") : Json)), ("hdr", (true : Json)), ("withparse", (true : Json))] ++ extra)
 
+/-- the statement id as the export uses it: `CleanInput` then `EscapeSymbolsForExport` -/
+def effId (stmtId : String) : Str := Tab.escape (TabPrint.cleanInput '|' stmtId.toList)
+
 def tabCase (id tag : String) (s : Stmt) (stmtId : String) (o : Tab.Opts) : Case :=
   let text := String.ofList (renderS s)
   { id := id, op := "tab", args := tabArgs text stmtId o,
-    exp := rowsToJson (Tab.exportAll o (denoteTop s) stmtId.toList), tag := tag }
+    exp := rowsToJson (Tab.exportAll o (denoteTop s) (effId stmtId)), tag := tag }
 
 /-- normalise a row object: drop empty cells, sort keys -/
 def normRow (j : Json) : List (String × String) :=
@@ -65,7 +69,7 @@ def judgeTab (modelOnImplParse : Bool) (c : Case) (o : ObsLine) : Verdict :=
                                        ann := (c.args.getObjValAs? Bool "ann").toOption.getD false,
                                        gs := (c.args.getObjValAs? String "fmt").toOption.getD "csv" == "gs" }
               let id := (c.args.getObjValAs? String "id").toOption.getD ""
-              normGroups (rowsToJson (Tab.exportAll opts pn id.toList))
+              normGroups (rowsToJson (Tab.exportAll opts pn (effId id)))
             | .error _ => normGroups c.exp
           | _ => normGroups c.exp
         | _ => normGroups c.exp
